@@ -121,6 +121,70 @@ func runC14(c *Ctx, r *Report) {
 			}
 		}
 		r.Check(okCompact, "C14.R2", ssaFuncName(fi), "functions are saved in compact (single-line) form", c.Pos(fi.Pos()), "Function.Inspect does not print the body in compact mode: a saved function spans several lines")
+		// every PrintState an Inspect method builds is compact (no newline) and inside a block level (braces kept)
+		{
+			psT := c.TypeNamed("ast", "PrintState")
+			nPS := 0
+			for _, fn := range c.ModuleSSAFuncs() {
+				if fn.Name() != "Inspect" || fn.Pkg == nil || shortPkg(fn.Pkg.Pkg) != "object" {
+					continue
+				}
+				eachInstr(fn, func(in ssa.Instruction) {
+					al, ok := in.(*ssa.Alloc)
+					if !ok {
+						return
+					}
+					n := namedStruct(al.Type())
+					if n == nil || n.Obj() != psT.Obj() {
+						return
+					}
+					nPS++
+					compact, level := false, false
+					for _, ref := range *al.Referrers() {
+						fa, ok := ref.(*ssa.FieldAddr)
+						if !ok {
+							continue
+						}
+						for _, r2 := range *fa.Referrers() {
+							st, ok := r2.(*ssa.Store)
+							if !ok || st.Addr != ssa.Value(fa) {
+								continue
+							}
+							if fa.Field == fieldIndex(psT, "Compact") {
+								if k, ok := st.Val.(*ssa.Const); ok && k.Value != nil && k.Value.ExactString() == "true" {
+									compact = true
+								}
+							}
+							if fa.Field == fieldIndex(psT, "IndentLevel") {
+								if k, ok := constInt(st.Val); ok && k >= 1 {
+									level = true
+								}
+							}
+						}
+					}
+					// the level matters when an arbitrary node (interface receiver) is printed with it: a body printed as a
+					// *Statements with hand-written braces around it (Macro.Inspect) is the top level of that text
+					anyNode := false
+					eachInstr(fn, func(in2 ssa.Instruction) {
+						if call, ok := in2.(*ssa.Call); ok && call.Common().IsInvoke() && call.Common().Method.Name() == "PrettyPrint" {
+							for _, a := range call.Common().Args {
+								if a == ssa.Value(al) {
+									anyNode = true
+								}
+							}
+						}
+					})
+					if !anyNode {
+						level = true
+					}
+					r.Check(compact && level, "C14.R2", ssaFuncName(fn), "the PrintState built here is compact and inside a block", c.Pos(al.Pos()),
+						"an Inspect method prints code with a PrintState that is not compact or sits at indent level 0 (where a block is printed as the top level program: no braces, one statement per line): the saved binding spans several lines that do not parse, and auto-load runs them one by one")
+				})
+			}
+			if nPS == 0 {
+				r.Undecided("C14.R2: no PrintState built in an Inspect method of package object (Quote.Inspect expected)")
+			}
+		}
 		// no Inspect method of package object writes a constant containing a newline (Error excepted: errors are not bindings)
 		for _, fn := range c.ModuleSSAFuncs() {
 			if fn.Name() != "Inspect" || fn.Pkg == nil || shortPkg(fn.Pkg.Pkg) != "object" {
